@@ -411,8 +411,9 @@ class MappingSchema(AbstractMappingSchema, Schema):
 
         nested_set(self.mapping, tuple(reversed(parts)), normalized_column_mapping)
         new_trie([parts], self.mapping_trie)
-        self._find_cache.pop((normalized_table, True), None)
-        self._find_cache.pop((normalized_table, False), None)
+        # Adding a table can change the answer for any cached lookup (partially qualified names,
+        # differently quoted spellings, names that just became ambiguous), not only for this key
+        self._find_cache.clear()
 
     def column_names(
         self,
